@@ -114,6 +114,10 @@ def ffft (j : Json) : Except String Json := do
 def ffftExp (j : Json) : Except String Json := do
   .ok (J.ofList J.ofNatList (ffftExpTable (← J.nat (← J.field j "n"))))
 
+def slaterSchedule (j : Json) : Except String Json := do
+  .ok (J.ofList (J.ofList fun (ab : Nat × Nat) => J.ofNatList [ab.1, ab.2])
+    (slaterSchedulePairs (← J.nat (← J.field j "n"))))
+
 def handle (op : String) (j : Json) : Option (Except String Json) :=
   match op with
   | "c14.swap" => some (swap j)
@@ -127,6 +131,7 @@ def handle (op : String) (j : Json) : Option (Except String Json) :=
   | "c14.givens" => some (givens j)
   | "c14.ffft" => some (ffft j)
   | "c14.ffftexp" => some (ffftExp j)
+  | "c14.slaterschedule" => some (slaterSchedule j)
   | _ => none
 
 end C14
